@@ -138,6 +138,10 @@ def lean_obligations(ctx: Ctx, prop: str | None = None, need_driver: bool = True
         for n in names:
             okn, detail = res.get(n, (False, "missing"))
             ctx.obligation(n, "theorem", okn, detail)
+        if ctx.tier == "thorough":
+            # independent re-check of the compiled module (and everything it imports) by leanchecker
+            rc3, out3 = lake(["env", "leanchecker", f"FM.Props.{prop}"])
+            ctx.obligation(f"leanchecker FM.Props.{prop} (independent replay of the compiled declarations)", "recheck", rc3 == 0, out3[-400:] if rc3 else "")
     else:
         for n in names:
             ctx.obligation(n, "theorem", False, "module does not build")
